@@ -666,6 +666,13 @@ where
                 self.slots[*dst] = Some(l);
                 Obs::Unit
             }
+            Op::GetMove { h, i } => match self.slots.get_mut(*h).and_then(|s| s.take()) {
+                Some(l) => {
+                    let r = f.get.call(l, *i);
+                    self.one(r, "get (handle moved into the call)")
+                }
+                None => Obs::Skipped,
+            },
             Op::IterConsume { h, alias, k } => match self.slots.get_mut(*h).and_then(|s| s.take()) {
                 Some(l) => {
                     let mut it = l.into_iter();
